@@ -64,9 +64,12 @@ Built build_program(const Plan& plan, World& w, CodeHolder& code, x86::Assembler
   Section* fn_section = nullptr;
   // local functions may live in a second executable section, so that labels referenced by embedded addresses are bound
   // in a section whose offset is not zero
+  // (sections are not always created in the order in which they are laid out)
+  bool data_first = plan.get("data_first", 0) != 0;
+  if (data_first && plan.get("data_section", 0)) { b.err = code.new_section(Out(data_section), ".data", SIZE_MAX, SectionFlags::kNone, 8, 1); if (b.err != Error::kOk) return b; }
   if (plan.get("fn_section", 0)) { b.err = code.new_section(Out(fn_section), ".text2", SIZE_MAX, SectionFlags::kExecutable, 16, 0); if (b.err != Error::kOk) return b; }
   bool tables_early = plan.get("tables_early", 0) != 0;   // embedded label addresses are emitted BEFORE their labels are bound
-  if (plan.get("data_section", 0)) { b.err = code.new_section(Out(data_section), ".data", SIZE_MAX, SectionFlags::kNone, 8, 1); if (b.err != Error::kOk) return b; }
+  if (!data_first && plan.get("data_section", 0)) { b.err = code.new_section(Out(data_section), ".data", SIZE_MAX, SectionFlags::kNone, 8, 1); if (b.err != Error::kOk) return b; }
 
   std::vector<std::pair<Label, uint32_t>> local_fns;      // label, constant
   std::vector<std::pair<Label, uint64_t>> rip_datas;      // label, value
@@ -273,6 +276,11 @@ void execute_sim(const Plan& plan) {
       std::vector<uint8_t> img(size);
       SIM_CHECK(code.copy_flattened_data(img.data(), size, CopySectionFlags::kPadSectionBuffer) == Error::kOk, "c04:copy", "copy_flattened_data failed");
       SIM_CHECK(memcmp(reinterpret_cast<void*>(fn), img.data(), size) == 0, "c04:installed-image-differs", "bytes in executable memory differ from the relocated image");
+      if (rt) {
+        // the whole image belongs to the span the runtime obtained for it (otherwise the next add() overwrites its tail)
+        JitAllocator::Span sp;
+        SIM_CHECK(rt->allocator().query(Out(sp), reinterpret_cast<void*>(fn)) == Error::kOk && sp.size() >= size, "c04:installed-span-too-small", "the relocated image has %zu bytes but the span JitRuntime::add() obtained for it has %zu", size, sp.size());
+      }
       SIM_CHECK(code.base_address() == final_base, "c04:base-address", "holder reports base %#llx, code lives at %#llx", (unsigned long long)code.base_address(), (unsigned long long)final_base);
       uint64_t got = fn();
       sim::logf("executed at %#llx -> %llu", (unsigned long long)final_base, (unsigned long long)got);
@@ -312,6 +320,7 @@ Plan generate_sim(uint64_t seed, bool thorough) {
   p.set("tail_section", int64_t(cfg.below(2)));
   p.set("fn_section", int64_t(cfg.below(2)));
   p.set("tables_early", int64_t(cfg.below(2)));
+  p.set("data_first", int64_t(cfg.below(2)));
   p.set("shift", int64_t(cfg.below(4)));
   size_t n = size_t(1 + r.below(thorough ? 24 : 12));
   bool allow_forced_rel = cfg.chance(1, 3);
@@ -419,8 +428,20 @@ void execute_decode(const Plan& plan) {
         }
       }
       else {
+        a64::Assembler& aa = static_cast<a64::Assembler&>(a);
         switch (op.kind) {
           case kLocalTable: { Label l = a.new_label(); labels.push_back(l); embed_site(l); break; }
+          case kCallStub: {
+            // b / bl / adr with an ABSOLUTE target given as an immediate: PC-relative fields that depend on the base
+            int form = int(op.a[2] % 3);   // 0 b, 1 bl, 2 adr
+            size_t before = a.offset();
+            int64_t reach = form == 2 ? (1 << 19) : (1 << 26);
+            uint64_t t = base + uint64_t(before) + uint64_t((int64_t(uint64_t(op.a[0]) % uint64_t(2 * reach)) - reach) & ~int64_t(form == 2 ? 0 : 3));
+            Error er = form == 0 ? aa.b(Imm(t)) : form == 1 ? aa.bl(Imm(t)) : aa.adr(a64::x(1), Imm(t));
+            if (er == Error::kOk) sites.push_back(Site{3 + form, 0, before, a.offset(), t, Label(), false});
+            else SIM_CHECK(false, "c04:reachable-target-refused", "a64 %s onto %#llx (within reach of base %#llx) was refused with error %u", form == 0 ? "b" : form == 1 ? "bl" : "adr", (unsigned long long)t, (unsigned long long)base, unsigned(er));
+            break;
+          }
           default: nops(size_t(op.a[0] % 9)); break;
         }
       }
@@ -457,6 +478,17 @@ void execute_decode(const Plan& plan) {
           if (via_table) sim::count("c04.probe.decode_address_table");
           SIM_CHECK(designated == (s.target & mask), "c04:wrong-target", "call/jmp at offset %zu..%zu relocated to base %#llx (base %s at assembly time) designates %#llx%s, requested %#llx", s.start, s.end, (unsigned long long)base,
                     known ? "known" : "unknown", (unsigned long long)designated, via_table ? " (address table)" : "", (unsigned long long)(s.target & mask));
+        }
+        else if (s.kind >= 3) {
+          // AArch64 b / bl (imm26 * 4) and adr (immhi:immlo), relative to the address of the instruction itself
+          uint32_t word; memcpy(&word, img.data() + sec_off + s.start, 4);
+          int64_t rel;
+          if (s.kind == 5) { uint32_t immlo = (word >> 29) & 3, immhi = (word >> 5) & 0x7ffff; rel = int64_t(uint64_t(immhi << 2 | immlo) << 43) >> 43; }
+          else rel = (int64_t(uint64_t(word & 0x3ffffff) << 38) >> 38) * 4;
+          uint64_t designated = base + sec_off + s.start + uint64_t(rel);
+          SIM_CHECK(designated == s.target, "c04:wrong-target", "a64 %s at offset %zu relocated to base %#llx (base %s at assembly time) designates %#llx, requested %#llx", s.kind == 3 ? "b" : s.kind == 4 ? "bl" : "adr", s.start,
+                    (unsigned long long)base, known ? "known" : "unknown", (unsigned long long)designated, (unsigned long long)s.target);
+          sim::count("c04.probe.decode_a64_branch");
         }
         else if (s.kind == 1) {
           size_t fs = s.end - s.start;
